@@ -455,6 +455,7 @@ def run(case):
             bump("instancer_failed_locations")
             continue
         judged += 1
+        exact = None
         bump("master_locations_judged")
         # a master strictly inside another master's support is reproduced through fractional
         # scalars times ROUNDED deltas: values may be off by one there (stated bound)
@@ -474,7 +475,7 @@ def run(case):
                 violations.append({"mech": "structure_differs_from_master", "detail": {
                     "glyph": name, "master": si, "instance": str(a)[:300], "imaster": str(m)[:300]}})
                 continue
-            for p, q in zip(a[1], m[1]):
+            for pi_, (p, q) in enumerate(zip(a[1], m[1])):
                 if a[0] == "composite":
                     if p[0] != q[0]:
                         violations.append({"mech": "component_base_differs", "detail": {
@@ -484,6 +485,27 @@ def run(case):
                 bump("points_compared")
                 # 'within one font unit' of the master as a font stores it (integers)
                 q = (R.otround(q[0]), R.otround(q[1]))
+                if (abs(p[0] - q[0]) > 1 or abs(p[1] - q[1]) > 1) and keep_tags is None:
+                    # the reader was handed USER coordinates: it normalises them and applies
+                    # avar in 2.14 fixed point, so it evaluates up to a few 2^-14 beside the
+                    # master - visible where neighbouring masters differ by thousands of units.
+                    # Decide at the master's design location itself (avar bypassed), and judge
+                    # the avar mapping on its own
+                    if exact is None:
+                        exact = _instance_at_design_location(vf_bytes, ds, src, uloc, bump)
+                    if exact.get("avar_error") is not None:
+                        violations.append({"mech": "avar_maps_master_location_wrong", "detail": dict(
+                            exact["avar_error"], master=si, location=uloc)})
+                        break
+                    if exact.get("font") is not None and name in exact["font"].getGlyphOrder():
+                        a2 = outline_points(exact["font"], name)
+                        if a2[0] == a[0] and a2[2:] == a[2:] and len(a2[1]) == len(a[1]):
+                            p2 = a2[1][pi_]
+                            if a[0] == "composite":
+                                p2 = p2[1:]
+                            if abs(p2[0] - q[0]) <= 1 and abs(p2[1] - q[1]) <= 1:
+                                bump("points_off_only_through_2_14_location_rounding")
+                                continue
                 if abs(p[0] - q[0]) > 1 or abs(p[1] - q[1]) > 1:
                     violations.append({"mech": "outline_off_by_more_than_one", "detail": {
                         "glyph": name, "master": si, "location": uloc, "instance": list(p),
@@ -507,6 +529,43 @@ def run(case):
             break
     return {"status": "violated" if violations else "held", "violations": violations[:10],
             "counters": counters, "nontrivial": judged >= 2 and moving}
+
+
+def _instance_at_design_location(vf_bytes, ds, src, uloc, bump):
+    """The variable font evaluated at the master's own (design) location: avar removed, every
+    axis set to the user value whose plain normalisation IS the master's normalised design
+    coordinate.  Also checks that avar sends the master's user location there (within 4 steps
+    of 2^-14: the user value, both knots and the result are rounded)."""
+    from fontTools.ttLib import TTFont
+    from fontTools.varLib import instancer
+    from fontTools.varLib.models import normalizeValue, piecewiseLinearMap
+    out = {"font": None, "avar_error": None}
+    try:
+        t = TTFont(io.BytesIO(vf_bytes))
+        norm = V.normalise(ds["axes"], V.full_location(ds["axes"], src["location"]))
+        by_tag = {a["tag"]: a["name"] for a in ds["axes"]}
+        segs = t["avar"].segments if "avar" in t else {}
+        loc = {}
+        for a in t["fvar"].axes:
+            n = float(norm[by_tag[a.axisTag]])
+            loc[a.axisTag] = (a.defaultValue + n * (a.maxValue - a.defaultValue) if n >= 0
+                              else a.defaultValue + n * (a.defaultValue - a.minValue))
+            un = normalizeValue(uloc[a.axisTag], (a.minValue, a.defaultValue, a.maxValue))
+            un = round(un * 16384) / 16384
+            mapped = piecewiseLinearMap(un, segs[a.axisTag]) if a.axisTag in segs else un
+            if abs(mapped - n) > 4.0 / 16384:
+                out["avar_error"] = {"axis": a.axisTag, "avar_gives": mapped, "master_is_at": n}
+                return out
+        if "avar" in t:
+            del t["avar"]
+        inst = instancer.instantiateVariableFont(t, loc)
+        b = io.BytesIO()
+        inst.save(b)
+        out["font"] = TTFont(io.BytesIO(b.getvalue()))
+        bump("master_locations_re_evaluated_at_the_design_location")
+    except Exception:  # noqa: BLE001 - the second opinion is not available: the first one stands
+        bump("design_location_evaluation_failed")
+    return out
 
 
 def judge_layout(case, ufo, inst, si, uloc, all_kern_keys, bump, tol=0):
